@@ -5,6 +5,7 @@ import (
 	"fmt"
 	"math"
 	"math/big"
+	"math/bits"
 	"os/exec"
 	"sort"
 	"strconv"
@@ -13,6 +14,7 @@ import (
 	"github.com/go-spatial/geom"
 	"github.com/go-spatial/geom/slippy"
 	"github.com/pdok/texel/pointindex"
+	"github.com/pdok/texel/snap"
 	"github.com/pdok/texel/tms20"
 )
 
@@ -54,7 +56,8 @@ func isquadOp(t tms20.TileMatrixSet) string {
 }
 
 var quadErrs = []string{"", "tile matrix height should be same as width", "tiles should be square", "strconv.Atoi", "tile matrix ID should string representation", "variable matrix widths are not supported",
-	"tile matrix IDs should be a range with step 1", "same point of origin", "same corner of origin", "tiles should stay the same size", "should double in size each level", "cell size should half each level"}
+	"tile matrix IDs should be a range with step 1", "same point of origin", "same corner of origin", "tiles should stay the same size", "should double in size each level", "cell size should half each level",
+	"tile width should be a power of 2", "\x00 (13 is not used)", "first tile matrix should be a single tile"}
 
 func isQuadImpl(t tms20.TileMatrixSet) (ans string) {
 	defer func() {
@@ -98,6 +101,10 @@ func trueQuadTree(t tms20.TileMatrixSet) bool {
 		if tm.MatrixHeight != tm.MatrixWidth || tm.TileHeight != tm.TileWidth || err != nil || n != id || len(tm.VariableMatrixWidths) != 0 {
 			return false
 		}
+		// 4096 grid units per 256-pixel tile on a quadtree of pixels: the tile width is a power of two, ids count from 0 and matrix i has 2^i tiles on each axis
+		if bits.OnesCount(tm.TileWidth) != 1 || id != i || (i == 0 && tm.MatrixWidth != 1) {
+			return false
+		}
 		if i > 0 {
 			p := t.TileMatrices[ids[i-1]]
 			ratio := new(big.Rat).Quo(new(big.Rat).SetFloat64(p.CellSize), new(big.Rat).SetFloat64(tm.CellSize))
@@ -113,9 +120,14 @@ func trueQuadTree(t tms20.TileMatrixSet) bool {
 func checkC14(e *env) {
 	r := e.res
 	r.Rule = "all 14 built-in tile matrix sets as they are, and for every set accepted by IsQuadTree every tile matrix x every single-field perturbation: matrix width/height +1, -1, x2 (each alone and both), tile width/height x2 (each alone and both), " +
-		"origin x/y +1, corner flipped, cell size replaced by previous/1.989, /1.99, /2.01, /2.011 (tolerance borders), id gap (a middle matrix removed), ids not starting at 0 (the first 1..3 matrices removed, all ids shifted by 1 and by 5), id text 'x', '01', '+N', '', a variable-width row added; " +
+		"origin x/y +1, corner flipped, cell size replaced by previous/1.989, /1.99, /2.01, /2.011 (tolerance borders), id gap (a middle matrix removed), ids not starting at 0 (the first 1..3 matrices removed, all ids shifted by 1 and by 5), every matrix at once (matrix widths x2 and x4: a first matrix of more than one tile; tiles of 512, 128, 300, 384), id text 'x', '01', '+N', '', a variable-width row added; " +
 		"IsQuadTree's verdict (accept / which check rejects) against the model and against the declarative true-quadtree predicate; the binary is run on every built-in set to see an error message, never a stack trace. Enumerated completely (exhaustive)."
 	accepted := map[string]bool{}
+	type pixelSet struct {
+		name string
+		t    tms20.TileMatrixSet
+	}
+	var pixelSets []pixelSet
 	for _, name := range builtinNames {
 		t, err := tms20.LoadEmbeddedTileMatrixSet(name)
 		if err != nil {
@@ -221,7 +233,7 @@ func checkC14(e *env) {
 			for _, id := range ids[:k] {
 				delete(c.TileMatrices, id)
 			}
-			one(c, fmt.Sprintf("first %d matrices removed", k), false)
+			one(c, fmt.Sprintf("first %d matrices removed", k), true)
 		}
 		for _, shift := range []int{1, 5} {
 			c := cloneTMS(t)
@@ -233,8 +245,27 @@ func checkC14(e *env) {
 				tm.ID = strconv.Itoa(id + shift)
 				c.TileMatrices[id+shift] = tm
 			}
-			one(c, fmt.Sprintf("all ids shifted by %d", shift), false)
+			one(c, fmt.Sprintf("all ids shifted by %d", shift), true)
 		}
+		// every matrix at once: the first matrix of 2 x 2 and of 4 x 4 tiles (every matrix still doubles the previous one), tiles of 512 and 128 (fine:
+		// still 16 grid units per cell) and of 300 and 384 (no quadtree of pixels)
+		whole := func(what string, mustReject bool, f func(tm *tms20.TileMatrix)) {
+			c := cloneTMS(t)
+			for id, tm := range c.TileMatrices {
+				f(&tm)
+				c.TileMatrices[id] = tm
+			}
+			one(c, what, mustReject)
+			if isQuadImpl(c) == "ok" {
+				pixelSets = append(pixelSets, pixelSet{name + " " + what, c})
+			}
+		}
+		whole("all matrices x2", true, func(tm *tms20.TileMatrix) { tm.MatrixWidth *= 2; tm.MatrixHeight *= 2 })
+		whole("all matrices x4", true, func(tm *tms20.TileMatrix) { tm.MatrixWidth *= 4; tm.MatrixHeight *= 4 })
+		whole("all tiles 512", false, func(tm *tms20.TileMatrix) { tm.TileWidth, tm.TileHeight = 512, 512 })
+		whole("all tiles 128", false, func(tm *tms20.TileMatrix) { tm.TileWidth, tm.TileHeight = 128, 128 })
+		whole("all tiles 300", true, func(tm *tms20.TileMatrix) { tm.TileWidth, tm.TileHeight = 300, 300 })
+		whole("all tiles 384", true, func(tm *tms20.TileMatrix) { tm.TileWidth, tm.TileHeight = 384, 384 })
 		e.flush()
 	}
 	e.flush()
@@ -247,12 +278,13 @@ func checkC14(e *env) {
 	sort.Strings(names)
 	r.Notes = append(r.Notes, "accepted built-in sets: "+strings.Join(names, ", "))
 	// "in which case the pixel size used for tile matrix z equals its cell size divided by 16": the index's pixel of every id of every accepted set
+	// (the built-in ones and the accepted whole-set variants), and the level snap pairs with that id
 	for _, name := range names {
 		t, _ := tms20.LoadEmbeddedTileMatrixSet(name)
-		levelDiff := uint(math.Log2(float64(t.TileMatrices[0].TileWidth))) + 4
-		if uint(1)<<levelDiff != t.TileMatrices[0].TileWidth*16 {
-			r.violation(Violation{Oracle: "4096-units-per-256-pixel-tile", Op: name, Detail: fmt.Sprintf("tile width %d, level offset %d", t.TileMatrices[0].TileWidth, levelDiff)})
-		}
+		pixelSets = append(pixelSets, pixelSet{name, t})
+	}
+	for _, ps := range pixelSets {
+		name, t := ps.name, ps.t
 		for id, tm := range t.TileMatrices {
 			ix, err := pointindex.FromTileMatrixSet(t, id) // ids deeper than level 32 included: the index is built (only inserting into it panics there, F7)
 			if err != nil {
@@ -262,8 +294,13 @@ func checkC14(e *env) {
 			g := gridOf(ix)
 			r.count("pixel-size", fmt.Sprintf("pixel-size %s id %d", name, id), true)
 			got, want := float64(g.res)/1e10, tm.CellSize/16
-			if g.depth != uint(id)+levelDiff || math.Abs(got-want) > 1e-6*want {
-				r.violation(Violation{Oracle: "pixel=cellSize/16", Op: fmt.Sprintf("%s id %d", name, id), Impl: fmt.Sprintf("pixel %v on level %d", got, g.depth), Detail: fmt.Sprintf("cell size %v / 16 = %v (relative difference %.2e)", tm.CellSize, want, math.Abs(got-want)/want)})
+			pixelsPerAxis := new(big.Int).Mul(big.NewInt(int64(tm.MatrixWidth)), big.NewInt(int64(tm.TileWidth)*16))
+			if new(big.Int).Lsh(big.NewInt(1), g.depth).Cmp(pixelsPerAxis) != 0 || math.Abs(got-want) > 1e-6*want {
+				r.violation(Violation{Oracle: "pixel=cellSize/16", Op: fmt.Sprintf("%s id %d", name, id), Impl: fmt.Sprintf("pixel %v on level %d", got, g.depth), Detail: fmt.Sprintf("cell size %v / 16 = %v (relative difference %.2e); %v pixels of 1/16 cell on each axis", tm.CellSize, want, math.Abs(got-want)/want, pixelsPerAxis)})
+			}
+			byLevel := snap.XTileMatrixIDsByLevels(t, []int{id})
+			if got, ok := byLevel[g.depth]; !ok || got != id || len(byLevel) != 1 {
+				r.violation(Violation{Oracle: "pixel=cellSize/16", Op: fmt.Sprintf("%s id %d", name, id), Impl: fmt.Sprintf("snap pairs the id with %v, the index of that id has depth %d", byLevel, g.depth), Detail: "snap and pointindex disagree on the level of a tile matrix"})
 			}
 		}
 	}
